@@ -44,7 +44,9 @@ VP_HARNESS(h_config)
   default: r = hwloc_topology_set_flags(&T, flags); break;
   }
   VP_CHECK(filter_inv(&T), "filter invariant: Machine/PU/NUMA always kept, special types never KEEP_STRUCTURE, Group never KEEP_ALL, after any setter");
-  if (!init) { VP_CHECK(r == -1 && errno == EBUSY, "configuration of a loaded topology -> EBUSY");
+  if (!init) { /* an unknown type on a loaded topology: both errors apply, either is a correct answer */
+    if (which == 0 && (type < 0 || type >= HWLOC_OBJ_TYPE_MAX)) VP_CHECK(r == -1 && (errno == EBUSY || errno == EINVAL), "configuration of a loaded topology with an unknown type -> EBUSY or EINVAL");
+    else VP_CHECK(r == -1 && errno == EBUSY, "configuration of a loaded topology -> EBUSY");
     for (unsigned ty = 0; ty < HWLOC_OBJ_TYPE_MAX; ty++) VP_CHECK(T.type_filter[ty] == old[ty], "EBUSY leaves the filters unchanged");
     VP_CHECK(T.flags == oldflags, "EBUSY leaves the flags unchanged"); }
   else if (which == 0) {
@@ -64,12 +66,26 @@ VP_HARNESS(h_config)
 }
 
 /* ---- insertion step into a flat parent ------------------------------------------------------------------------------------ */
-VP_HARNESS(h_insert)
+#ifndef PRE
+#define PRE 0
+#endif
+#ifndef NTYPES
+#define NTYPES 4
+#endif
+static int ins_refused, ins_container, ins_sibling;
+/* one insertion with a CONCRETE type, cpuset and dont_merge attribute into a freshly built flat parent (tree surgery under
+ * symbolic control does not conclude; the caller enumerates the cases as guarded concrete runs) */
+static void insert_case(hwloc_obj_type_t ty, unsigned long m, int dm)
 {
-  struct hwloc_topology *t = calloc(1, sizeof(*t)); VP_NONNULL(t);
-  t->support.discovery = calloc(1, sizeof(*t->support.discovery)); t->support.cpubind = calloc(1, sizeof(*t->support.cpubind));
-  t->support.membind = calloc(1, sizeof(*t->support.membind)); t->support.misc = calloc(1, sizeof(*t->support.misc));
-  t->nb_levels_allocated = 16; t->levels = calloc(16, sizeof(*t->levels)); t->level_nbobjects = calloc(16, sizeof(*t->level_nbobjects));
+  struct hwloc_topology *t = malloc(sizeof(*t)); VP_NONNULL(t); static const struct hwloc_topology tz; *t = tz;
+  t->support.discovery = malloc(sizeof(*t->support.discovery)); t->support.cpubind = malloc(sizeof(*t->support.cpubind));
+  t->support.membind = malloc(sizeof(*t->support.membind)); t->support.misc = malloc(sizeof(*t->support.misc));
+  VP_NONNULL(t->support.discovery); VP_NONNULL(t->support.cpubind); VP_NONNULL(t->support.membind); VP_NONNULL(t->support.misc);
+  static const struct hwloc_topology_discovery_support dz; static const struct hwloc_topology_cpubind_support cz; static const struct hwloc_topology_membind_support mz; static const struct hwloc_topology_misc_support xz;
+  *t->support.discovery = dz; *t->support.cpubind = cz; *t->support.membind = mz; *t->support.misc = xz;
+  t->nb_levels_allocated = 16; t->levels = malloc(16 * sizeof(*t->levels)); t->level_nbobjects = malloc(16 * sizeof(*t->level_nbobjects));
+  VP_NONNULL(t->levels); VP_NONNULL(t->level_nbobjects);
+  for (unsigned i = 0; i < 16; i++) { t->levels[i] = NULL; t->level_nbobjects[i] = 0; }
   hwloc__topology_filter_init(t);
   hwloc_topology_setup_defaults(t);
   t->state = HWLOC_TOPOLOGY_STATE_IS_LOADING;
@@ -77,14 +93,19 @@ VP_HARNESS(h_insert)
   hwloc_alloc_root_sets(root);
   hwloc_obj_t pu[3];
   for (unsigned i = 0; i < 3; i++) { pu[i] = hwloc_alloc_setup_object(t, HWLOC_OBJ_PU, i); pu[i]->cpuset = vp_bm(1UL << i); hwloc__insert_object_by_cpuset(t, NULL, pu[i], NULL); }
-  VP_ASSUME(root->first_child == pu[0] && pu[0]->next_sibling == pu[1] && pu[1]->next_sibling == pu[2] && !pu[2]->next_sibling);
-  VP_SYMBOLIC_PHASE(1);
-  unsigned tsel = (unsigned) vp_in_range(0, 3);
-  hwloc_obj_type_t ty = tsel == 0 ? HWLOC_OBJ_PACKAGE : tsel == 1 ? HWLOC_OBJ_CORE : tsel == 2 ? HWLOC_OBJ_GROUP : HWLOC_OBJ_L2CACHE;
-  unsigned long m = vp_in64(); VP_ASSUME(m >= 1 && m <= 15);
+  VP_CHECK(root->first_child == pu[0] && pu[0]->next_sibling == pu[1] && pu[1]->next_sibling == pu[2] && !pu[2]->next_sibling, "three PUs inserted in order");
+#if PRE
+  /* an existing container {PU0,PU1} (PRE 1) or {PU1,PU2} (PRE 2): insertions that intersect it without inclusion must be
+   * refused; with PRE 2 the new object may already have taken PU0 below it when it meets the Core: the put-back path */
+  hwloc_obj_t core = hwloc_alloc_setup_object(t, HWLOC_OBJ_CORE, 7); core->cpuset = vp_bm(PRE == 1 ? 0x3 : 0x6);
+  VP_CHECK(hwloc__insert_object_by_cpuset(t, NULL, core, NULL) == core && core->parent == root && core->first_child == pu[PRE == 1 ? 0 : 1], "a Core containing two PUs inserted");
+#endif
+  /* snapshot of the two list levels */
+  hwloc_obj_t snap[4], gsnap[4]; unsigned ns = 0, ngs = 0;
+  for (hwloc_obj_t c = root->first_child; c && ns < 4; c = c->next_sibling) { snap[ns++] = c; for (hwloc_obj_t g = c->first_child; g && ngs < 4; g = g->next_sibling) gsnap[ngs++] = g; }
   hwloc_obj_t o = hwloc_alloc_setup_object(t, ty, 0);
   o->cpuset = vp_bm(m);
-  if (ty == HWLOC_OBJ_GROUP) o->attr->group.dont_merge = (unsigned char) vp_in_bool();
+  if (ty == HWLOC_OBJ_GROUP) o->attr->group.dont_merge = (unsigned char) dm;
   hwloc_obj_t r = hwloc__insert_object_by_cpuset(t, NULL, o, NULL);
   /* invariant of the (pre-connect) child lists */
   unsigned long u = 0; int prevfirst = -1; unsigned n = 0;
@@ -98,11 +119,29 @@ VP_HARNESS(h_insert)
     if (c->first_child) VP_CHECK(cu == (w & 7), "a container's cpuset is the union of its children (PUs 0..2)");
   }
   VP_CHECK((u & 7) == 7 && n <= 4, "no PU is lost by the insertion");
-  if (r == NULL) { VP_CHECK(root->first_child == pu[0] && pu[0]->next_sibling == pu[1] && pu[1]->next_sibling == pu[2] && !pu[2]->next_sibling && pu[0]->parent == root && pu[2]->parent == root, "a refused insertion puts every child back: the lists are exactly the old ones"); }
-  else VP_CHECK(r == o || r == root || r == pu[0] || r == pu[1] || r == pu[2], "the result is the inserted object or an existing object it was merged into");
-  VP_WITNESS_IF(r == o && m == 3, "a container of PU0+PU1 inserted");
-  VP_WITNESS_IF(r == NULL, "an insertion refused");
-  VP_WITNESS_IF(r == o && m == 8, "a new sibling with a PU-less cpuset");
+  if (r == NULL) {
+    unsigned k = 0, gk = 0; int same = 1;
+    for (hwloc_obj_t c = root->first_child; c && k < 5; c = c->next_sibling, k++) { if (k >= ns || snap[k] != c || c->parent != root) same = 0; for (hwloc_obj_t g = c->first_child; g && gk < 5; g = g->next_sibling, gk++) if (gk >= ngs || gsnap[gk] != g || g->parent != c) same = 0; }
+    VP_CHECK(same && k == ns && gk == ngs, "a refused insertion puts every child back: the lists are exactly as before");
+    ins_refused = 1; }
+  else VP_CHECK(r == o || r == root || r == pu[0] || r == pu[1] || r == pu[2] || (PRE && (r == snap[0] || r == snap[1])), "the result is the inserted object or an existing object it was merged into");
+  if (r == o && m == 3) ins_container = 1;
+  if (r == o && m == 8) ins_sibling = 1;
+}
+VP_HARNESS(h_insert)
+{
+  static const hwloc_obj_type_t types[4] = { HWLOC_OBJ_GROUP, HWLOC_OBJ_PACKAGE, HWLOC_OBJ_CORE, HWLOC_OBJ_L2CACHE };
+  unsigned tsel = (unsigned) vp_in_range(0, NTYPES - 1); unsigned long m = vp_in64(); VP_ASSUME(m >= 1 && m <= 15); int dm = vp_in_bool();
+  int done = 0;
+  for (unsigned vt = 0; vt < NTYPES; vt++) for (unsigned long vm = 1; vm <= 15; vm++) for (int vd = 0; vd < 2; vd++)
+    if (tsel == vt && m == vm && dm == vd && (vd == 0 || types[vt] == HWLOC_OBJ_GROUP)) { insert_case(types[vt], vm, vd); done = 1; }
+  VP_ASSUME(done);
+#if PRE
+  VP_WITNESS_IF(ins_refused, "an insertion that intersects the existing Core without inclusion refused");
+#else
+  VP_WITNESS_IF(ins_container, "a container of PU0+PU1 inserted");
+  VP_WITNESS_IF(ins_sibling, "a new sibling with a PU-less cpuset");
+#endif
 }
 
 /* ---- set propagation on a connected seed with symbolic set contents ------------------------------------------------------------ */
@@ -127,6 +166,9 @@ VP_HARNESS(h_sets)
     cc = vp_in_range(0, 63); cn = vp_in_range(0, 7);
     VP_ASSUME(!(c & ~cc) && !(n & ~cn));
     if (i < nnorm && o->parent) VP_ASSUME(!(c & ~vp_w(o->parent->cpuset)) && !(cc & ~vp_w(o->parent->complete_cpuset)));
+    /* the root: insertion adds every PU to its cpuset/complete_cpuset and every NUMA node to its nodeset/complete_nodeset
+     * (hwloc__insert_object_by_cpuset, hwloc__attach_memory_object), nothing else writes them before this point */
+    if (i == 0) VP_ASSUME(c == S.cpus && !(S.cpus & ~cc) && n == S.nodes && !(S.nodes & ~cn));
     hwloc_bitmap_from_ulong(o->cpuset, c); hwloc_bitmap_from_ulong(o->complete_cpuset, cc); hwloc_bitmap_from_ulong(o->nodeset, n); hwloc_bitmap_from_ulong(o->complete_nodeset, cn);
   }
   unsigned long ac = vp_in_range(0, 63), an = vp_in_range(0, 7);
